@@ -120,9 +120,22 @@ func Exec(st istorage.IAppStorage, clock *kit.Clock, o *Op) string {
 		}
 		return "RRows " + kit.List(items)
 	}
+	// the caller owns the byte slices it passes and may reuse them after the call (the event codec
+	// passes pooled buffers): every slice handed to a write is scribbled over afterwards, so a
+	// backend or cache that keeps a reference instead of a copy shows in the next read
+	scribble := func(bs ...[]byte) {
+		for _, b := range bs {
+			for i := range b {
+				b[i] ^= 0xA5
+			}
+		}
+	}
 	switch o.Op {
 	case "Put":
-		if err := st.Put(unhex(o.PK), cc(o), unhex(o.V)); err != nil {
+		pk, c, v := unhex(o.PK), cc(o), unhex(o.V)
+		err := st.Put(pk, c, v)
+		scribble(pk, c, v)
+		if err != nil {
 			return "RErr"
 		}
 		return "RUnit"
@@ -131,7 +144,11 @@ func Exec(st istorage.IAppStorage, clock *kit.Clock, o *Op) string {
 		for i, it := range o.Items {
 			items[i] = istorage.BatchItem{PKey: unhex(it[0]), CCols: unhex(it[1]), Value: unhex(it[2])}
 		}
-		if err := st.PutBatch(items); err != nil {
+		err := st.PutBatch(items)
+		for _, it := range items {
+			scribble(it.PKey, it.CCols, it.Value)
+		}
+		if err != nil {
 			return "RErr"
 		}
 		return "RUnit"
@@ -162,13 +179,17 @@ func Exec(st istorage.IAppStorage, clock *kit.Clock, o *Op) string {
 	case "TTLRead":
 		return rows(st.TTLRead)
 	case "Ins":
-		ok, err := st.InsertIfNotExists(unhex(o.PK), cc(o), unhex(o.V), o.TTL)
+		pk, c, v := unhex(o.PK), cc(o), unhex(o.V)
+		ok, err := st.InsertIfNotExists(pk, c, v, o.TTL)
+		scribble(pk, c, v)
 		if err != nil {
 			return "RErr"
 		}
 		return "RBool " + kit.Bool(ok)
 	case "Cas":
-		ok, err := st.CompareAndSwap(unhex(o.PK), cc(o), unhex(o.Old), unhex(o.V), o.TTL)
+		pk, c, old, v := unhex(o.PK), cc(o), unhex(o.Old), unhex(o.V)
+		ok, err := st.CompareAndSwap(pk, c, old, v, o.TTL)
+		scribble(pk, c, old, v)
 		if err != nil {
 			return "RErr"
 		}
